@@ -31,6 +31,11 @@ CHECKS["C08"] = dict(level="exploration", design="5/C08",
    text="2.0 million texts in the quick tier: every token string of length <= 3 over a 52-entry vocabulary (keywords, operators, identifiers embedding keywords, numbers, strings) under every per-gap separator choice {nothing where maximal munch allows, space, newline, comment}; every word of <= 3 characters over {a,é,_,1,0,.}; every string content of <= 4 characters over 8 characters through the documented escapes; every raw literal body of <= 4 characters over {a,quote,backslash,n} followed by more input; illegal characters, unterminated strings and lone & | in every statement context must be rejected; token spans must account for every byte.",
    note="trusted: the token-dump hook (verif::tokens: Debug rendering and end offset of every token), printer::may_touch, and the reference lexer/decoder in props/c08.rs; no token kind name is hard-coded (kinds are learnt from single-token inputs)")
 
+CHECKS["C02"] = dict(level="model_checking", design="5/C02",
+   technique="explicit-state exploration of all reachable states of the abstract stack machine of each program's real bytecode (every path, both branch directions), over a bounded-exhaustive set of accepted inputs; conformance replay of every program's concrete VM trace inside the abstract state graph; contract probes at the VM's unchecked accesses",
+   text="For 2.4 million accepted inputs (all slice programs, all token strings of length <= 4, all single-token edits/truncations of the corpus, a directed nested-function family) the bytecode produced by the real compiler is explored completely as an abstract stack machine (49 million states in the quick tier): no pop below the locals, every fetch and jump on an instruction boundary inside the code, operands in range, every path ends in Halt/Return, code of different function contexts disjoint. Every program is also executed on the real VM with probes on and every concrete step must be a state of the abstract graph (2.4 million traces, 47 million steps).",
+   note="trusted: the 45-row stack-effect table of nlmc/src/bcmc.rs (kept bound to vm.rs by the conformance replay), the opcode-table hook, the probe sites; heights are explored exactly up to 96 slots above the frame base")
+
 NOT_YET = {}
 props = [json.loads(l) for l in open("/verif/properties.jsonl")]
 checks = []
